@@ -215,9 +215,29 @@ func nativeValidate(repo, hdir, wd string, eng *Engine, results []*HarnessResult
 		}
 		if rf.finding >= 0 {
 			f := &rf.hr.Findings[rf.finding]
+			if f.Confirmed == "yes" {
+				continue
+			}
 			f.NativeOut = summarizeEvents(nr)
 			f.Confirmed = confirmFinding(f, nr)
+			if f.Kind == "heap-typing" && dropGCFails(nr) {
+				f.Confirmed = "yes"
+				f.NativeOut = "native replay: decoded value did not survive forced collections and allocation churn"
+			}
 			continue
+		}
+		if hasKind(rf.hr, "heap-typing") {
+			// UB-class finding on this harness: a native run in which the
+			// value did not survive collections is its confirmation, not a
+			// translator mismatch
+			if dropGCFails(nr) {
+				for i := range rf.hr.Findings {
+					if rf.hr.Findings[i].Kind == "heap-typing" {
+						rf.hr.Findings[i].Confirmed = "yes"
+						rf.hr.Findings[i].NativeOut = "native replay: decoded value did not survive forced collections and allocation churn"
+					}
+				}
+			}
 		}
 		if msg := compareEvents(rf.vc.Events, nr); msg != "" {
 			if len(rf.hr.Mismatches) < 10 {
@@ -228,6 +248,31 @@ func nativeValidate(repo, hdir, wd string, eng *Engine, results []*HarnessResult
 		}
 	}
 	return nil
+}
+
+func hasKind(hr *HarnessResult, kind string) bool {
+	for i := range hr.Findings {
+		if hr.Findings[i].Kind == kind {
+			return true
+		}
+	}
+	return false
+}
+
+// dropGCFails removes native-only "did not survive collections" failures and
+// reports whether there were any.
+func dropGCFails(nr *nativeResult) bool {
+	var out []Event
+	found := false
+	for _, e := range nr.Events {
+		if e.Kind == "fail" && (strings.Contains(e.Label, "survives-collections") || strings.Contains(e.Label, "re-encoding-the-decoded-value")) {
+			found = true
+			continue
+		}
+		out = append(out, e)
+	}
+	nr.Events = out
+	return found
 }
 
 func summarizeEvents(nr *nativeResult) string {
